@@ -178,6 +178,20 @@ def canon_chain(base, keys) -> str:
     return ast.unparse(base) + "".join(f"[{ast.unparse(k)}]" for k in keys)
 
 
+def _death_removal_early(f, inst: str) -> bool:
+    """weakref.ref(instance, cb) / weakref.finalize(instance, ...) whose callback pops / deletes."""
+    for c in walk_own(f.node):
+        if isinstance(c, ast.Call) and call_name(c) in ("ref", "finalize") and len(c.args) >= 2 and inst in names_in(c.args[0]):
+            cb = c.args[1]
+            bodies = [cb] + list(c.args[2:])
+            if isinstance(cb, ast.Name) and cb.id in f.nested:
+                bodies = [f.nested[cb.id].node]
+            txt = " ".join(ast.unparse(b) for b in bodies)
+            if ".pop" in txt or "del " in txt or ".discard" in txt:
+                return True
+    return False
+
+
 def run(ctx) -> None:
     rep = ctx.rep
     a = ctx.a
@@ -215,7 +229,9 @@ def run(ctx) -> None:
                 forms = find_assign_sources(f, k0.id) or [k0]
             for k in forms:
               if inst in names_in(k) and not (isinstance(k, ast.Name) and k.id == inst):
-                if isinstance(k, ast.Call) and call_name(k) in ("id", "hash", "repr", "str"):
+                if isinstance(k, ast.Call) and call_name(k) == "id" and _death_removal_early(f, inst):
+                    pass  # identity key with removal on the owner's death: judged below
+                elif isinstance(k, ast.Call) and call_name(k) in ("id", "hash", "repr", "str"):
                     rep.violate("C11.R1", f, n, f"the cache is keyed by `{ast.unparse(k)}`, not by the instance itself: after the owner is garbage collected a new instance can get the same key and inherit the dead instance's bound signal (shared channel, source None)")
                 elif isinstance(k, ast.Tuple):
                     bad = [e for e in k.elts if isinstance(e, ast.Call) and call_name(e) in ("id", "hash", "repr", "str") and inst in names_in(e)]
@@ -224,6 +240,30 @@ def run(ctx) -> None:
                 else:
                     rep.unrecognised("C11.R1", f, n, f"cache key `{ast.unparse(k)}` derived from the instance in an unrecognised way")
     rep.floor("C11.R1", len(acc), 2)
+    # ... by IDENTITY.  A mapping keyed by the instance object itself (WeakKeyDictionary, dict)
+    # finds its entries by hash / ==: two distinct instances that compare equal (a frozen
+    # dataclass, a class with __eq__) get one bound signal.  Identity keys are `id(instance)`
+    # with the entry removed when the owner dies (weakref callback / weakref.finalize).
+    def _death_removal() -> bool:
+        for c in walk_own(f.node):
+            if isinstance(c, ast.Call) and call_name(c) in ("ref", "finalize") and len(c.args) >= 2 and inst in names_in(c.args[0]):
+                cb = c.args[1]
+                bodies = [cb] + list(c.args[2:])
+                if isinstance(cb, ast.Name) and cb.id in f.nested:
+                    bodies = [f.nested[cb.id].node]
+                txt = " ".join(ast.unparse(b) for b in bodies)
+                if (".pop" in txt or "del " in txt or ".discard" in txt) and any(canon_chain(b_, []) in txt or ast.unparse(b_) in txt for _n, b_, _k, _s in acc):
+                    return True
+        return False
+
+    by_object = [(n, base, keys) for n, base, keys, is_store in acc if any(isinstance(k, ast.Name) and k.id == inst for k in keys)]
+    id_keyed = [(n, base, keys) for n, base, keys, is_store in acc if any(isinstance(x, ast.Call) and call_name(x) == "id" and inst in names_in(x) for k in keys for x in ([k] if not isinstance(k, ast.Name) else find_assign_sources(f, k.id) or [k]))]
+    if by_object:
+        stores_ = [x for x in by_object if any(x[0] is y[0] for y in acc if y[3])] or by_object
+        n_, base_, keys_ = stores_[0]
+        rep.violate("C11.R1", f, n_, f"the cache `{canon_chain(base_, keys_)}` is keyed by the instance object itself: the mapping finds entries by hash and ==, so two distinct instances that compare equal (e.g. a frozen dataclass) share one bound signal - events dispatched on one are delivered to the other's subscribers")
+    elif id_keyed and _death_removal():
+        rep.hold("C11.R1", f, id_keyed[0][0], "the cache is keyed by the owner's identity and the entry is removed when the owner dies")
     loads = [x for x in acc if not x[3]]
     stores = [x for x in acc if x[3]]
     if loads and stores:
